@@ -1110,6 +1110,65 @@ pub fn token_pairs(rng: &mut Rng) -> String {
     s
 }
 
+/// `deepnest` family: one construct nested many levels deep (the shapes whose cost must stay polynomial): anonymous
+/// routines as call arguments with long sibling arguments, parentheses, begin/end, if/else chains, case, try, generic
+/// brackets, conditional directives
+pub fn deep_nest(rng: &mut Rng) -> String {
+    let depth = rng.range(6, 14);
+    let long = rng.chance(2, 3);
+    let (a1, a2) = if long {
+        ("AAAAAAAAAAAAAAA + BBBBBBBBBBBBBBBBBB, CCCCCCCCCCCCCCCCCCCC, ", ", DDDDDDDDDDDDDD + EEEEEEEEEEEEEEEEE, FFFFFFFFFFFFFFFFFFFFFF")
+    } else {
+        ("a, ", ", b")
+    };
+    let mut body = String::from("X;");
+    match rng.below(8) {
+        0 | 1 => {
+            for _ in 0..depth {
+                let kw = if rng.chance(1, 2) { "function: Integer" } else { "procedure" };
+                body = format!("Result := FooBarBazQux({}{} begin {} end{});", a1, kw, body, a2);
+            }
+        }
+        2 => {
+            let mut e = String::from("x");
+            for _ in 0..depth * 3 {
+                e = format!("({} + {})", e, if long { "SomeVeryLongIdentifierName" } else { "y" });
+            }
+            body = format!("z := {};", e);
+        }
+        3 => {
+            for _ in 0..depth {
+                body = format!("begin {} end;", body);
+            }
+        }
+        4 => {
+            for i in 0..depth {
+                body = format!("if Condition{} and (AnotherCondition{} or Third) then begin {} end else begin {} end;", i, i, body, "Y;");
+            }
+        }
+        5 => {
+            for i in 0..depth {
+                body = format!("case Value{} of 1: begin {} end; 2: Other; else Default; end;", i, body);
+            }
+        }
+        6 => {
+            let mut t = String::from("Integer");
+            for _ in 0..depth {
+                t = format!("TDictionary<string, {}>", t);
+            }
+            body = format!("var v: {} := {}.Create;", t, t);
+        }
+        _ => {
+            let mut s = String::from("X;\n");
+            for i in 0..depth {
+                s = format!("{{$ifdef A{}}}\n{}{{$else}}\nY{};\n{{$endif}}\n", i, s, i);
+            }
+            body = s;
+        }
+    }
+    format!("procedure P;\nbegin\n{}\nend;\n", body)
+}
+
 /// `pairs_enum` family (thorough): every ordered triple of the spacing alphabet, with the gap kinds rotating, in a
 /// fixed context; deterministic in `i`
 pub fn token_pairs_enum(i: usize) -> String {
